@@ -207,10 +207,10 @@ const FAULT_KINDS: &[&str] = &[
     "schema-unknown-type", "schema-duplicate", "schema-extend-missing",
     "op-unknown-field", "op-unknown-fragment", "op-import-missing-file", "op-import-missing-fragment", "op-wildcard-twice",
     "gen-missing-schema-output", "gen-emit-runtime-dts", "cfg-unknown-plugin", "cfg-invalid", "cfg-no-schema",
-    "schema-plugin-misuse", "gen-output-without-file-name",
+    "schema-plugin-misuse", "gen-output-without-file-name", "schema-eof-unclosed", "op-eof-unclosed",
 ];
 /// faults whose handling by the current code violates the property (known findings; kept in dedicated projects)
-const KNOWN_FAULT_KINDS: &[&str] = &["schema-eof-unclosed", "op-eof-unclosed", "gen-scalar-type-missing", "op-invalid-unspread-fragment"];
+const KNOWN_FAULT_KINDS: &[&str] = &["gen-scalar-type-missing", "op-invalid-unspread-fragment"];
 
 struct Built { proj: Project, docs: Vec<g::Doc>, schema: g::Schema }
 
@@ -313,7 +313,7 @@ fn inject(rng: &mut Rng, root: &Path, b: &mut Built, kind: &str, prefix: &mut Ve
         }
         "schema-eof-unclosed" => {
             b.proj.schema_files[sj].1.push_str(&format!("type Unclosed{serial} {{\n  a: Int\n"));
-            f.stage = 1; f.files = vec![sfile]; f.known = vec!["parse-error-at-end-of-input-not-located".into()];
+            f.stage = 1; f.files = vec![sfile];
         }
         "op-stray-brace" => {
             if rng.chance(1, 2) { prefix[dj].insert(0, "}".into()); } else { suffix[dj].push_str("}\n"); }
@@ -325,7 +325,7 @@ fn inject(rng: &mut Rng, root: &Path, b: &mut Built, kind: &str, prefix: &mut Ve
         }
         "op-eof-unclosed" => {
             suffix[dj].push_str(&format!("query Unclosed{serial} {{\n  __typename\n"));
-            f.stage = 2; f.files = vec![dfile]; f.known = vec!["parse-error-at-end-of-input-not-located".into()];
+            f.stage = 2; f.files = vec![dfile];
         }
         "op-eof-unclosed-nonl" => {
             // the same fault without a final newline: the line of the error exists, so it is located
